@@ -359,6 +359,7 @@ def _deep(ctx, G, est, args, kw, cm, ref, reff):
     P = f"Dense{est}CoancestryMatrix"
     n = G.n
     mat0 = cm.mat.copy()
+    _nonmutating(ctx, cm, "from_gmat", exports=(est == "Molecular" or (est == "VanRaden" and args["p"][0] == "none")))
     # accessors
     for i in range(n):
         for j in range(n):
@@ -643,6 +644,101 @@ def _lab_kind_equal(a, b):
     return (a.taxa is None) == (b.taxa is None) and (a.taxa_grp is None) == (b.taxa_grp is None)
 
 
+def _snap(cm):
+    """canonical state of a coancestry object, cheap to compare"""
+    def lab(v):
+        return None if v is None else (str(v.dtype), tuple(v.tolist()))
+    return (cm.mat.shape, str(cm.mat.dtype), cm.mat.tobytes(), lab(cm.taxa), lab(cm.taxa_grp), lab(cm.taxa_grp_name),
+            lab(cm.taxa_grp_stix), lab(cm.taxa_grp_spix), lab(cm.taxa_grp_len))
+
+
+_SNAP_FIELDS = ("mat.shape", "mat.dtype", "mat", "taxa", "taxa_grp", "taxa_grp_name", "taxa_grp_stix", "taxa_grp_spix", "taxa_grp_len")
+
+
+def _freeze(v):
+    """private copy of a returned value (an accessor may hand out a view of the matrix)"""
+    if v is None or isinstance(v, (bool, str)):
+        return v
+    if hasattr(v, "equals"):                       # pandas
+        return v.copy()
+    if hasattr(v, "mat") and hasattr(v, "taxa"):   # a matrix object (copy / deepcopy)
+        return ("obj", type(v).__name__, _snap(v))
+    return numpy.array(v, copy=True)
+
+
+def _same_value(a, b):
+    if a is None or b is None or isinstance(a, (bool, str, tuple)):
+        return type(a) is type(b) and a == b
+    if hasattr(a, "equals"):
+        return bool(a.equals(b))
+    a, b = numpy.asarray(a), numpy.asarray(b)
+    return a.shape == b.shape and bool(numpy.array_equal(a, b, equal_nan=(a.dtype.kind == "f")))
+
+
+def accessor_forms(n):
+    """argument forms of kinship(*args) / coancestry(*args): everything numpy indexing of the matrix accepts"""
+    r = numpy.arange(n)
+    return [("int", (n - 1,)), ("int,int", (n - 1, 0)), ("slice", (slice(None),)), ("slice,int", (slice(0, n), 0)),
+            ("int,slice", (0, slice(None))), ("slice,slice", (slice(None), slice(0, n))), ("reversed-slice", (slice(None, None, -1),)),
+            ("list", ([0, n - 1],)), ("ndarray,ndarray", (r, r[::-1].copy())), ("bool-mask", (r % 2 == 0,)), ("ellipsis", (Ellipsis,)),
+            ("ellipsis,int", (Ellipsis, 0))]
+
+
+def _nonmutating(ctx, cm, done, exports=False):
+    """query - call a documented non-mutating accessor / summary / export - query again: the canonical state of the
+    object must be bit-identical after every call, the same call repeated must return the same value, and the
+    accessors must return (half of) the indexed part of the matrix for every argument form."""
+    import os, tempfile
+    B = "DenseCoancestryMatrix"
+    n = cm.mat.shape[0]
+    mat0 = cm.mat.copy()
+    calls = []
+    for form, args in accessor_forms(n):
+        calls.append((f"kinship({form})", lambda args=args: cm.kinship(*args), 0.5 * mat0[args]))
+        calls.append((f"coancestry({form})", lambda args=args: cm.coancestry(*args), mat0[args]))
+    calls += [("mat_asformat[kinship]", lambda: cm.mat_asformat("kinship"), 0.5 * mat0), ("mat_asformat[coancestry]", lambda: cm.mat_asformat("coancestry"), mat0)]
+    for fmt in ("coancestry", "kinship"):
+        calls += [(f"inverse[{fmt}]", lambda fmt=fmt: cm.inverse(format=fmt), None),
+                  (f"min_inbreeding[{fmt}]", lambda fmt=fmt: cm.min_inbreeding(format=fmt), None),
+                  (f"max_inbreeding[{fmt}]", lambda fmt=fmt: cm.max_inbreeding(format=fmt), None)]
+        for meth in ("max", "min", "mean"):
+            for axis in (None, 0, 1):
+                calls.append((f"{meth}[{fmt},axis={axis}]", lambda fmt=fmt, meth=meth, axis=axis: getattr(cm, meth)(format=fmt, axis=axis), None))
+    calls += [("is_positive_semidefinite", lambda: cm.is_positive_semidefinite(), None), ("copy", lambda: cm.copy(), None), ("deepcopy", lambda: cm.deepcopy(), None)]
+    tmp = None
+    if exports:
+        tmp = tempfile.TemporaryDirectory(prefix="mc_c13_")
+        d = tmp.name
+        calls += [("to_pandas", lambda: cm.to_pandas(), None), ("to_csv", lambda: cm.to_csv(os.path.join(d, "c.csv")), None),
+                  ("to_hdf5", lambda: cm.to_hdf5(os.path.join(d, "c.h5")), None)]
+    try:
+        prev = _snap(cm)
+        for name, fn, exp in calls:
+            meth = name.split("(")[0].split("[")[0]
+            try:
+                v1 = _freeze(fn())
+                v2 = _freeze(fn())
+                raised = None
+            except Exception as e:          # e.g. inverse of a singular / NaN-padded matrix: compared in _views, not here
+                raised = e
+            ctx.transitions += 2
+            now = _snap(cm)
+            if now != prev:
+                k = next(f for f, a, b in zip(_SNAP_FIELDS, prev, now) if a != b)
+                cur = cm.mat.tolist()
+                raise Violation(f"{B}.{meth}:mutates-object",
+                                f"after {done}: {name} changed the object's {k}; matrix before the call {mat0.tolist() if k.startswith('mat') else ''} "
+                                f"after {cur if k.startswith('mat') else ''}")
+            if raised is None:
+                require(_same_value(v1, v2), f"{B}.{meth}:repeated-call-differs", lambda: f"after {done}: {name} returned {v1!r} and then {v2!r}")
+                if exp is not None:
+                    require(_same_value(v1, exp), f"{B}.{meth}:value", lambda: f"after {done}: {name} = {v1!r}, indexing the matrix gives {exp!r}")
+            ctx.flag("nonmutating:" + name.split("[")[0] if "(" in name else "nonmutating:" + meth)
+    finally:
+        if tmp is not None:
+            tmp.cleanup()
+
+
 def _views(cm):
     """every read-only view / summary of the object; an exception is an observation too"""
     out = {}
@@ -687,6 +783,7 @@ def _fresh_like(cm):
 def _check_views(ctx, cm, done):
     """all views of the object must describe its current matrix"""
     B = "DenseCoancestryMatrix"
+    _nonmutating(ctx, cm, done)
     mat = cm.mat
     K = cm.mat_asformat("kinship")
     ctx.transitions += 1
@@ -705,7 +802,9 @@ def _check_views(ctx, cm, done):
                     lambda: f"after {done}: max/mean/max_inbreeding ({fmt}) do not describe the current matrix {mat.tolist()}")
 
 
-def run_history(ctx, G: GmatCase, est, args, ops):
+def run_history(ctx, G: GmatCase, est, args, ops, rounds=(True, True, True)):
+    """rounds[k]: whether the view round after k operations is checked; the enumeration checks a shared prefix of
+    histories once (the construction round once per object, the round after op1 once per op1) — replay checks all"""
     kw, ref = reference(G, est, args)
     if ref is None:
         return None
@@ -714,8 +813,9 @@ def run_history(ctx, G: GmatCase, est, args, ops):
     other = cls.from_gmat(G.gm, **kw)
     ctx.transitions += 2
     done = []
-    _check_views(ctx, cm, "construction")
-    for op in ops:
+    if rounds[0]:
+        _check_views(ctx, cm, "construction")
+    for k, op in enumerate(ops):
         before = (cm.mat.copy(), None if cm.taxa is None else cm.taxa.copy())
         try:
             applicable = _apply_op(cm, op, other)
@@ -731,7 +831,8 @@ def run_history(ctx, G: GmatCase, est, args, ops):
         done.append(op)
         if cm.mat.shape != before[0].shape or not numpy.array_equal(cm.mat, before[0], equal_nan=True) or (cm.taxa is not None and cm.taxa.tolist() != before[1].tolist()):
             ctx.flag("history:changes-something:" + op)
-        _check_views(ctx, cm, " -> ".join(done))
+        if rounds[k + 1]:
+            _check_views(ctx, cm, " -> ".join(done))
     ctx.outcome(cm.mat.tobytes())
     return True
 
@@ -752,11 +853,12 @@ def run_hist_shard(spec, ctx):
         G = GmatCase(kind, n, m, idx, lv, ctx.seed)
         ctx.state(digest(("hist", kind, n, m, idx, lv)))
         for est, args in HIST_EST:
-            for op1 in HIST_OPS:
-                for op2 in HIST_OPS:
+            for i1, op1 in enumerate(HIST_OPS):
+                for i2, op2 in enumerate(HIST_OPS):
                     ctx.evaluations += 1
                     case = dict(G.case(est, args), layer="hist", ops=[op1, op2])
-                    if ctx.guard(lambda: run_history(ctx, G, est, args, (op1, op2)), case=case, sig_prefix=f"Dense{est}CoancestryMatrix:history:"):
+                    rounds = (i1 == 0 and i2 == 0, i2 == 0, True)
+                    if ctx.guard(lambda: run_history(ctx, G, est, args, (op1, op2), rounds), case=case, sig_prefix=f"Dense{est}CoancestryMatrix:history:"):
                         ctx.traces += 1
                     ctx.count("histories")
             ctx.flag("history:" + est)
@@ -896,6 +998,10 @@ def finalize(ctx, tier, seed):
         assert f in ctx.flags, f
     assert ctx.counters.get("sweep:marker-counts", 0) >= 300 and ctx.counters.get("sweep:taxon-counts", 0) >= 40
     assert ctx.counters.get("histories", 0) > 5000
+    for form, _ in accessor_forms(2):
+        assert f"nonmutating:kinship({form})" in ctx.flags and f"nonmutating:coancestry({form})" in ctx.flags, form
+    for f in ("to_pandas", "to_csv", "to_hdf5", "copy", "deepcopy", "inverse", "min_inbreeding", "max", "mean", "is_positive_semidefinite", "mat_asformat"):
+        assert "nonmutating:" + f in ctx.flags, f
     assert "edit-stage" in ctx.flags and ctx.counters.get("cases:after-in-place-edit", 0) > 100
     for f in ("deep:inverse", "deep:min_inbreeding", "deep:psd-true", "deep:permutation", "deep:subselection"):
         assert f in ctx.flags, f
